@@ -23,6 +23,21 @@ func PowerSet(original []string) *[][]string {
 	return &result
 }
 
+// EachSubSet passes every non empty subset to the consumer, in the same order as PowerSet returns them,
+// without keeping the whole power set in memory.
+func EachSubSet(original []string, consumer func(subSet []string)) {
+	powerSetSize := PowerSetSize(len(original))
+	for index := 1; index < powerSetSize; index++ {
+		var subSet []string
+		for j, elem := range original {
+			if index&(1<<uint(j)) > 0 {
+				subSet = append(subSet, elem)
+			}
+		}
+		consumer(subSet)
+	}
+}
+
 func PowerSetSize(elements int) int {
 	if elements <= 0 {
 		return 0
